@@ -418,6 +418,15 @@ func genConservative(tier string, rng *RNG, emit func(Case)) {
 	// regression inputs for the trailing-space / line-break cases
 	docs = append(docs, []byte("||\n|\nrow one\nrow two\n"), []byte("|\n|\nx\n"), []byte("| |\n||\ny\n"), []byte("a\n|\n|\n"), []byte("|||\n|:|\nz\n"), []byte("tab\\\tseparated\n"), []byte("foo\t\t\nbar\n"), []byte("foo \t\nbar\n"),
 		[]byte("### bar    ###\n"), []byte("aaa     \nbbb\n"), []byte("foo\n*bar*\n"), []byte("foo\n`bar`\n"), []byte("a\n![b](c)\n"))
+	// near misses of every extension's trigger syntax (a document WITHOUT the characters the extension needs, but with text that
+	// a loosened guard would take for its syntax): words that begin like `www.` without the dot, addresses without `@`, schemes
+	// without `:`, brackets without `^`, pipes without a dash row, tildes replaced, definition markers without a colon
+	for _, w := range []string{"www2.example.com", "wwwroot.example.com/path", "wwwexample.com", "WWWX.example.org/a?b=c", "ww.example.com www",
+		"see wwwa.b and wwww.c.d/e", "http//example.com/a", "https example.com", "ftp.example.com/file", "mailto example.com", "a.b.example.com/path_(x)",
+		"user at example.com", "user.example.com", "x w.w.w y", "wwwwww.", "- wwwx.y.z\n> www9.q.example\n",
+		"| a | b |\n| = | = |\n| c | d |\n", "a | b\n= | =\nc | d\n", "[ ] todo\n- ( ) x\n- [y] z\n", "term\n; definition\n", "x~y z^w [a] [1]: note\n"} {
+		docs = append(docs, []byte(strings.ReplaceAll(w, "\\n", "\n")+"\n"))
+	}
 	for ci := range consClauses {
 		for bi := range consBases {
 			for _, d := range docs {
